@@ -49,7 +49,8 @@ fn joined_world(src: &mut Source) -> World {
         }
         queries.push(q.into_iter().collect());
     }
-    World { lang, recs, limit: 10, queries, markers: (SL.to_string(), SR.to_string()) }
+    let refilled = src.chance(1, 8);
+    World { lang, recs, limit: 10, queries, markers: (SL.to_string(), SR.to_string()), refilled }
 }
 
 /// a title of 21-45 words and queries aimed at its late words
@@ -70,7 +71,7 @@ fn long_title_world(src: &mut Source) -> World {
     let lc: Vec<char> = late.chars().collect();
     let q1: String = lc[..1 + src.below(lc.len())].iter().collect();
     let q2 = format!("{} {}", words[n - 1], late);
-    World { lang, recs, limit: 10, queries: vec![q1, late, q2], markers: (SL.to_string(), SR.to_string()) }
+    World { lang, recs, limit: 10, queries: vec![q1, late, q2], markers: (SL.to_string(), SR.to_string()), refilled: false }
 }
 
 pub fn decode(src: &mut Source) -> Box<dyn Case> {
@@ -119,7 +120,12 @@ impl Case for C09Case {
                     Err(e) => {
                         let clause = if e.starts_with("nested") || e.starts_with("close") || e.starts_with("unclosed") { "markers-unbalanced" } else { "text-altered" };
                         if clause == "text-altered" {
-                            continue; // C02 decides text fidelity; structure cannot be judged here
+                            // C02 decides text fidelity; structure cannot be judged here - except that
+                            // a title without a single configured marker has no span at all
+                            if has_alnum && !out.contains(SL) && !out.contains(SR) {
+                                return ctx.fail("no-span-for-word-query", "", info("(the returned title carries none of the configured markers)".into()));
+                            }
+                            continue;
                         }
                         return ctx.fail(clause, "", info(e));
                     }
